@@ -155,7 +155,7 @@ def build_processor(spec, labels=None):
     qutip, Processor, _f, _P = _impl()
     dims = spec["dims"]
     rng_np = np.random.default_rng(spec["seed"])
-    p = Processor(len(dims), dims=list(dims))
+    p = Processor(len(dims), dims=list(dims), spline_kind=spec.get("spline", "step_func"))
     mats = []
     drift_full = np.zeros((int(np.prod(dims)),) * 2, dtype=complex)
     if spec.get("drift"):
@@ -243,6 +243,209 @@ def solver_final(p, psi, dm, tlist):
 
 def union_grid(spec):
     return sorted({t for ch in spec["chans"] for t in ch["tlist"]})
+
+
+# ----------------------------------------------------------------------------------------------
+# cubic (spline) coefficients: independent reference = the interpolating spline of degree min(3, n-1) through
+# the samples (not-a-knot, which is what scipy's CubicSpline default and QuTiP's order-3 coefficient both are),
+# evaluated with scipy.interpolate.make_interp_spline (not the CubicSpline call of the code)
+def ref_spline(tl, cs):
+    from scipy.interpolate import make_interp_spline
+    return make_interp_spline(np.asarray(tl, dtype=float), np.asarray(cs, dtype=float), k=min(3, len(tl) - 1))
+
+
+def ref_cubic_value(ch, sp, t):
+    """spline inside the channel's range; outside the resampling of the code (and this reference) is 0"""
+    tl = ch["tlist"]
+    return float(sp(t)) if tl[0] <= t <= tl[-1] else 0.0
+
+
+def make_cubic_spec(rng, same_end=None, counts=None):
+    nsub = rng.randint(1, 2)
+    dims = [rng.choice([2, 3]) for _ in range(nsub)]
+    nch = len(counts) if counts else rng.randint(1, 3)
+    if same_end is None:
+        same_end = rng.random() < 0.5
+    t_end = rng.uniform(1.0, 2.5)
+    chans = []
+    for i in range(nch):
+        n = counts[i] if counts else rng.choice([2, 3, 3, 4, 5, 6, 7])
+        end = t_end if (same_end or i == 0) else rng.uniform(0.4, 0.95) * t_end
+        inner = sorted(rng.uniform(0.08, 0.92) * end for _ in range(n - 2))
+        # keep the points apart (well above tol, and away from a badly conditioned spline)
+        tl = [0.0] + inner + [end]
+        if any(tl[j + 1] - tl[j] < 0.04 * end for j in range(len(tl) - 1)):
+            tl = [end * j / (n - 1) for j in range(n)]
+            tl = [x + (rng.uniform(-0.2, 0.2) * end / (n - 1) if 0 < j < n - 1 else 0.0) for j, x in enumerate(tl)]
+            tl[0], tl[-1] = 0.0, end
+        cs = [rng.uniform(-2, 2) for _ in range(n)]
+        if end < t_end:
+            cs[-1] = 0.0        # past its end the code resamples 0, the QuTiP-5 solver holds the last sample
+        k = rng.randint(1, min(2, nsub))
+        chans.append({"targets": rng.sample(range(nsub), k), "tlist": tl, "coeff": cs})
+    drift = {"targets": rng.sample(range(nsub), rng.randint(1, min(2, nsub)))} if rng.random() < 0.6 else None
+    return {"dims": dims, "seed": rng.randrange(2**31), "chans": chans, "drift": drift, "dm": rng.random() < 0.3,
+            "spline": "cubic"}
+
+
+def cubic_family():
+    """deterministic: a channel with 2, 3, 4, 5 samples next to a finer 7-point channel, same end / earlier end"""
+    out = []
+    fine = [0.0, 0.2, 0.5, 0.6, 0.9, 1.1, 1.3]
+    fc = [0.9, -1.3, 0.6, 1.7, -0.2, 0.8, 0.3]
+    grids = {2: [0.0, 1.3], 3: [0.0, 0.5, 1.3], 4: [0.0, 0.35, 0.8, 1.3], 5: [0.0, 0.3, 0.55, 1.0, 1.3]}
+    vals = {2: [0.4, -0.8], 3: [0.4, 2.1, -0.8], 4: [0.4, 2.1, -0.8, 1.2], 5: [0.4, 2.1, -0.8, 1.2, -0.5]}
+    for n in (2, 3, 4, 5):
+        for early in (False, True):
+            tl = [x * (0.7 if early else 1.0) for x in grids[n]]
+            cs = list(vals[n])
+            if early:
+                cs[-1] = 0.0
+            out.append({"dims": [2, 2], "seed": 11 + n, "drift": {"targets": [0, 1]}, "dm": False, "spline": "cubic",
+                        "chans": [{"targets": [0], "tlist": tl, "coeff": cs},
+                                  {"targets": [1], "tlist": list(fine), "coeff": list(fc)}]})
+    return out
+
+
+def ref_cubic_state(spec, drift_full, mats, v, t_end):
+    """independent integration of i y' = H(t) y with H = drift + sum spline_k(t) control_k"""
+    from scipy.integrate import solve_ivp
+    sps = [ref_spline(ch["tlist"], ch["coeff"]) for ch in spec["chans"]]
+
+    def rhs(t, y):
+        H = drift_full.copy()
+        for ch, sp, M in zip(spec["chans"], sps, mats):
+            H = H + ref_cubic_value(ch, sp, t) * M
+        return -1j * (H @ y)
+
+    ends = sorted({ch["tlist"][-1] for ch in spec["chans"]})
+    y, t0 = np.asarray(v, dtype=complex), 0.0
+    for t1 in ends:                     # restart at the kinks (channel ends)
+        if t1 > t0:
+            sol = solve_ivp(rhs, (t0, t1), y, method="DOP853", rtol=1e-10, atol=1e-12, max_step=(t1 - t0) / 20)
+            y, t0 = sol.y[:, -1], t1
+    return y
+
+
+def cubic_exact_reload(spec):
+    """reloading installs, for every channel, the spline through its values on the merged grid; that is the same
+    function when all channels end together and every channel is a single polynomial piece (<= 4 samples) or
+    already lives on the merged grid"""
+    ends = {ch["tlist"][-1] for ch in spec["chans"]}
+    merged = sorted({t for ch in spec["chans"] for t in ch["tlist"]})
+    if len(ends) != 1 or len(merged) < 4:
+        return False
+    return all(len(ch["tlist"]) <= 4 or sorted(ch["tlist"]) == merged for ch in spec["chans"])
+
+
+def check_cubic(spec, solver=True, full=False):
+    """C14 for a processor with spline_kind='cubic'.  -> None or the first mismatch.
+    `full`: also judge the solver against the resampled coefficients past a channel's end."""
+    p, labels, drift_full, mats = build_processor(spec)
+    load_pulses(p, labels, spec)
+    sps = [ref_spline(ch["tlist"], ch["coeff"]) for ch in spec["chans"]]
+    try:
+        T = np.asarray(p.get_full_tlist(), dtype=float)
+        C = np.asarray(p.get_full_coeffs(), dtype=float)
+    except Exception as e:
+        return f"get_full_tlist/get_full_coeffs raised {type(e).__name__}: {e}"
+    union = sorted({t for ch in spec["chans"] for t in ch["tlist"]})
+    if len(T) != len(union) or np.abs(T - np.array(union)).max() > 0:
+        return "get_full_tlist is not the sorted union of the channel grids"
+    ref = np.array([[ref_cubic_value(ch, sp, t) for t in T] for ch, sp in zip(spec["chans"], sps)])
+    scale = max(1.0, np.abs(ref).max())
+    if C.shape != ref.shape:
+        return f"get_full_coeffs has shape {C.shape}"
+    bad = np.argwhere(np.abs(C - ref) > 1e-9 * scale)
+    if len(bad):
+        m, k = bad[0]
+        return (f"get_full_coeffs: channel {m} ({len(spec['chans'][m]['tlist'])} samples) at t={T[k]!r} is {C[m][k]!r}, "
+                f"the spline through its samples is {ref[m][k]!r}")
+    # run_analytically: slice k holds the coefficients at T_k
+    import scipy.linalg as sla
+    U = np.eye(drift_full.shape[0], dtype=complex)
+    for k in range(len(T) - 1):
+        H = drift_full + sum(ref[m][k] * mats[m] for m in range(len(mats)))
+        U = sla.expm(-1j * H * (T[k + 1] - T[k])) @ U
+    try:
+        Ua = np.eye(drift_full.shape[0], dtype=complex)
+        for u in p.run_analytically():
+            Ua = u.full() @ Ua
+    except Exception as e:
+        return f"run_analytically raised {type(e).__name__}: {e}"
+    if np.abs(Ua - U).max() > 1e-9:
+        return f"run_analytically differs from the slice product of the spline values by {np.abs(Ua - U).max():.3e}"
+    # the Hamiltonian the solver integrates, at the merged points, against the resampled coefficients
+    try:
+        qu, _c = p.get_qobjevo(noisy=True)
+    except Exception as e:
+        return f"get_qobjevo raised {type(e).__name__}: {e}"
+    for k, t in enumerate(T):
+        inside = all(ch["tlist"][-1] >= t or ch["coeff"][-1] == 0 for ch in spec["chans"])
+        if not (inside or full):
+            continue
+        Hs = qu(float(t)).full()
+        Hc = drift_full + sum(C[m][k] * mats[m] for m in range(len(mats)))
+        if np.abs(Hs - Hc).max() > 1e-9 * scale:
+            return (f"at t={float(t)!r} the operator the solver integrates differs from drift + sum get_full_coeffs * control "
+                    f"by {np.abs(Hs - Hc).max():.3e}")
+    psi, v = init_state(spec)
+    yref = None
+    held = all(ch["tlist"][-1] == T[-1] or ch["coeff"][-1] == 0 for ch in spec["chans"])
+    if solver and held:
+        yref = ref_cubic_state(spec, drift_full, mats, v, T[-1])
+        try:
+            fin, how, err = solver_final(p, psi, spec.get("dm"), T)
+        except Exception as e:
+            return f"solver path raised {type(e).__name__}: {e}"
+        exp = np.outer(yref, yref.conj()) if spec.get("dm") else yref.reshape(-1, 1)
+        if np.abs(fin - exp).max() > 2e-6:
+            return f"{how} differs from the evolution under the spline Hamiltonian by {np.abs(fin - exp).max():.3e}"
+    # save / reload
+    d = tempfile.mkdtemp(prefix="c14-")
+    try:
+        fn = os.path.join(d, "c.txt")
+        try:
+            p.save_coeff(fn)
+            p2, _l, _d, _m = build_processor(spec)
+            p2.read_coeff(fn)
+            C2 = np.asarray(p2.get_full_coeffs(), dtype=float)
+            T2 = np.asarray(p2.get_full_tlist(), dtype=float)
+        except Exception as e:
+            return f"save_coeff/read_coeff raised {type(e).__name__}: {e}"
+        if T2.shape != T.shape or np.abs(T2 - T).max() > 1e-14 or C2.shape != ref.shape or np.abs(C2 - ref).max() > 1e-9 * scale:
+            return "coefficients after save/reload differ from the spline values on the merged grid"
+        if yref is not None and cubic_exact_reload(spec):
+            fin, how, err = solver_final(p2, psi, spec.get("dm"), T)
+            exp = np.outer(yref, yref.conj()) if spec.get("dm") else yref.reshape(-1, 1)
+            if np.abs(fin - exp).max() > 2e-6:
+                return f"after save/reload {how} differs from the evolution under the spline Hamiltonian by {np.abs(fin - exp).max():.3e}"
+    finally:
+        shutil.rmtree(d, ignore_errors=True)
+    return None
+
+
+def spline_degree_of_code(n, rng):
+    """behavioural extraction: the largest d such that the cubic branch of _fill_coeff reproduces every polynomial of
+    degree <= d from n samples at off-grid points (None if it raises)"""
+    _fill_coeff = _impl()[2]
+    tl = np.array(sorted([0.0, 1.0] + [rng.uniform(0.1, 0.9) for _ in range(max(0, n - 2))]))[:max(n, 0)]
+    if n == 1:
+        tl = np.array([0.0])
+    if n == 0:
+        tl = np.array([])
+    full = np.array(sorted(set(tl.tolist()) | {0.05, 0.33, 0.61, 0.97}))
+    deg = -1
+    for d in range(0, 5):
+        f = lambda x, d=d: (x + 0.3) ** d
+        try:
+            out = _fill_coeff(f(tl), tl, full)
+        except Exception:
+            return None
+        if np.abs(out - f(full)).max() > 1e-9:
+            break
+        deg = d
+    return deg
 
 
 LEAK_WITNESS = {"kind": "evolution", "spec": {
@@ -630,6 +833,36 @@ class C14(PropertyCheck):
             if d and d != "skip":
                 res.disagree({"numeric": spec}, "ordered expm product over the model's merged grid", d, d,
                              {"kind": "evolution", "spec": spec})
+        # cubic coefficients (numeric, partial): model = degree of the interpolant per sample count; the oracle's reference
+        ncub = 0
+        for n in range(0, 9):
+            mo = ctx.driver("drv_grid").run([f"splinedeg n={n}"])[0]
+            md = None if mo == "none" else int(mo[3:])
+            cd = spline_degree_of_code(n, rng)
+            inp = {"spline_degree": n}
+            res.case(inp, nontrivial=n >= 2, tags=["cubic-degree", f"samples={n}"])
+            if md != cd:
+                res.disagree(inp, md, cd, f"degree of the interpolant _fill_coeff uses for {n} samples "
+                             "(largest degree of polynomials reproduced off the grid)",
+                             {"kind": "cubic", "spec": cubic_family()[2 if n == 3 else 0]})
+        specs = cubic_family() + [make_cubic_spec(rng) for _ in range(16 * k)]
+        for i, spec in enumerate(specs):
+            tags = ["cubic", "samples=" + ",".join(str(len(c["tlist"])) for c in spec["chans"]),
+                    "ends=" + ("same" if len({c["tlist"][-1] for c in spec["chans"]}) == 1 else "different")]
+            try:
+                d = check_cubic(spec, solver=(i % 2 == 0))
+            except Exception as e:
+                d = "harness/implementation raised " + type(e).__name__ + ": " + str(e)[:200]
+            res.case({"cubic": spec}, nontrivial=len({tuple(c["tlist"]) for c in spec["chans"]}) >= 2, tags=tags)
+            ncub += 1
+            if d:
+                res.disagree({"cubic": spec}, "spline through the samples (make_interp_spline, degree min(3, n-1))", d, d,
+                             {"kind": "cubic", "spec": spec})
+        res.notes.append(f"cubic stream (partial): {ncub} processors with spline_kind='cubic', channels with 2-7 samples on independent "
+                         "non-uniform grids ending at the same / different times: get_full_coeffs against an independent "
+                         "make_interp_spline evaluation (1e-9), run_analytically against the slice product of those values, the operator "
+                         "the solver integrates at every merged point, run_state against an independent DOP853 integration (2e-6), "
+                         "save/reload; interpolant degree per sample count against Grid.splineDegree")
         res.notes.append("numeric stream (partial): run_analytically, get_full_coeffs, run_state (ket and density matrix, "
                          "method dop853, atol=rtol=1e-10, compared to 2e-6) and save/reload against an independent scipy.linalg.expm product "
                          "over the model's merged grid; solver reached through: " + ", ".join(sorted(solver_how)))
@@ -667,6 +900,9 @@ class C14(PropertyCheck):
             exp = reference_U(union_grid(spec), spec, drift_full, mats) @ v
             err = np.abs(r.states[-1].full().ravel() - exp).max()
             return (err > 1e-4), f"run_state final state differs from the ordered product by {err:.2e}"
+        if kind == "cubic":
+            d = check_cubic(w["spec"], solver=True, full=bool(w.get("full")))
+            return (d is not None), (d or "resampled spline coefficients, slice product, solver and save/reload agree")
         if kind == "evolution":
             spec = w["spec"]
             p, labels, drift_full, mats = build_processor(spec)
@@ -794,6 +1030,12 @@ class C14(PropertyCheck):
             f, d = self.oracle_replay(ctx, w)
             if f:
                 yield w, d
+        # cubic coefficients: deterministic family (2, 3, 4, 5 samples next to a finer channel) and random processors
+        for spec in cubic_family()[:4] + [make_cubic_spec(rng) for _ in range(4)]:
+            w = {"kind": "cubic", "spec": spec}
+            f, d = self.oracle_replay(ctx, w)
+            if f:
+                yield w, d
 
     def oracle_search(self, ctx, budget_s):
         t0 = time.time()
@@ -801,6 +1043,10 @@ class C14(PropertyCheck):
         while time.time() - t0 < budget_s:
             spec = make_spec(rng, last_zero=True)
             w = {"kind": "evolution", "spec": spec}
+            f, d = self.oracle_replay(ctx, w)
+            if f:
+                yield w, d
+            w = {"kind": "cubic", "spec": make_cubic_spec(rng)}
             f, d = self.oracle_replay(ctx, w)
             if f:
                 yield w, d
